@@ -1433,6 +1433,50 @@ brk("C17", "the helper that clears the writing flag is also called when the file
     _sub(PTM, '        self.set_initial_tensor(initial_tensor=None)\n\n    def _read_file(self, filename: Text):',
          '        self.set_initial_tensor(initial_tensor=None)\n        self._finish_writing()\n\n    def _read_file(self, filename: Text):')))
 
+# ------------------------------------------------------------------ C10 I7 / C04 D8: which bond matrices lie between two recorded sites
+_GAP_LOOP = '            for i in range(a+1, b):\n                gam_tr = self._full_trace_gammas[i].copy()\n                lam = self._lambdas[i+1].copy()\n'
+for _pid, _rule in (("C10", "I7"), ("C04", "D8")):
+    brk(_pid, "gap loop of get_density_matrix takes the bond matrix to the LEFT of each skipped site", _rule, _sub(
+        TEBDB, _GAP_LOOP, '            for i in range(a+1, b):\n                gam_tr = self._full_trace_gammas[i].copy()\n                lam = self._lambdas[i].copy()\n'))
+    ok(_pid, "gap loop of get_density_matrix written with a shifted loop variable", _sub(
+        TEBDB, _GAP_LOOP, '            for j in range(a, b-1):\n                i = j + 1\n                gam_tr = self._full_trace_gammas[j+1].copy()\n                lam = self._lambdas[j+2].copy()\n'))
+
+# ------------------------------------------------------------------ final pre-control (C18 O2, C03 M10)
+_CD_LOOP_HEAD = '        for step in range(num_steps+1):\n            # -- apply pre measurement control --\n            pre_measurement_control, post_measurement_control = controls(step)\n'
+_CD_BREAK = '            if step == num_steps:\n                break\n\n            # -- extract current state -- update field --\n            if record_all:\n                caps = _get_caps(process_tensors, step)\n'
+_CD_FINAL = '        # -- extract last state --\n        caps = _get_caps(process_tensors, step)\n'
+for _pid, _rule in (("C18", "O2"), ("C03", "M10")):
+    brk(_pid, "compute_dynamics loops over range(num_steps) without the extra iteration for the final pre-control", _rule, _multi(
+        _sub(SD, _CD_LOOP_HEAD, _CD_LOOP_HEAD.replace('range(num_steps+1)', 'range(num_steps)')),
+        _sub(SD, _CD_BREAK, _CD_BREAK.replace('            if step == num_steps:\n                break\n\n', '')),
+        _sub(SD, _CD_FINAL, _CD_FINAL.replace('_get_caps(process_tensors, step)', '_get_compact_caps(process_tensors, num_steps)'.replace('_get_compact_caps', '_get_caps')))))
+    ok(_pid, "compute_dynamics loops over range(num_steps) and applies the final pre-control after the loop", _multi(
+        _sub(SD, _CD_LOOP_HEAD, _CD_LOOP_HEAD.replace('range(num_steps+1)', 'range(num_steps)')),
+        _sub(SD, _CD_BREAK, _CD_BREAK.replace('            if step == num_steps:\n                break\n\n', '')),
+        _sub(SD, _CD_FINAL, '        # -- pre measurement control of the last step --\n        pre_measurement_control, post_measurement_control = controls(num_steps)\n        if pre_measurement_control is not None:\n            current_node, current_edges = _apply_system_superoperator(\n                current_node, current_edges, pre_measurement_control)\n\n        # -- extract last state --\n        caps = _get_caps(process_tensors, num_steps)\n')))
+    ok(_pid, "compute_dynamics break test written as `num_steps + 1 - 1 == step`", _sub(
+        SD, '            if step == num_steps:\n                break\n\n            # -- extract current state -- update field --\n            if record_all:\n                caps = _get_caps(process_tensors, step)\n',
+        '            if num_steps == step:\n                break\n\n            # -- extract current state -- update field --\n            if record_all:\n                caps = _get_caps(process_tensors, step)\n'))
+
+# ------------------------------------------------------------------ C02 S8: numeric options tested with `is None`
+_TP_SUBDIV = '            if subdiv_limit is None:\n                tmp_subdiv_limit = None\n            else:\n                tmp_subdiv_limit = int(subdiv_limit)\n'
+brk("C02", "TempoParameters parses subdiv_limit with a truthiness test (0 becomes None)", "S8", _sub(
+    TE, _TP_SUBDIV, '            tmp_subdiv_limit = int(subdiv_limit) if subdiv_limit else None\n'))
+brk("C02", "TempoParameters parses subdiv_limit with `if not subdiv_limit`", "S8", _sub(
+    TE, _TP_SUBDIV, '            if not subdiv_limit:\n                tmp_subdiv_limit = None\n            else:\n                tmp_subdiv_limit = int(subdiv_limit)\n'))
+ok("C02", "TempoParameters parses subdiv_limit with a conditional expression on `is None`", _sub(
+    TE, _TP_SUBDIV, '            tmp_subdiv_limit = None if subdiv_limit is None else int(subdiv_limit)\n'))
+
+# ------------------------------------------------------------------ value equality vs lru_cache (C20 A1, C12 L6, C01 N6)
+_PL_STR = '    def __str__(self) -> Text:\n        ret = []\n        ret.append(super().__str__())\n        ret.append("  alpha '
+def _pl_eq(attrs):
+    return _sub(BC, _PL_STR, '    def _parameters(self) -> tuple:\n        return (' + attrs + ')\n\n    def __eq__(self, other) -> bool:\n        if not isinstance(other, PowerLawSD):\n            return NotImplemented\n        return self._parameters() == other._parameters()\n\n    def __hash__(self) -> int:\n        return hash(self._parameters())\n\n' + _PL_STR)
+for _pid, _rule in (("C20", "A1"), ("C12", "L6"), ("C01", "N6")):
+    brk(_pid, "PowerLawSD compares and hashes by (alpha, zeta, cutoff, temperature): cutoff type left out", _rule,
+        _pl_eq('self.alpha, self.zeta, self.cutoff, self.temperature'))
+    ok(_pid, "PowerLawSD compares and hashes by all its parameters including the cutoff type",
+       _pl_eq('self.alpha, self.zeta, self.cutoff, self.cutoff_type, self.temperature'))
+
 for _pid in ["C01", "C02", "C03", "C04", "C05", "C06", "C07", "C08", "C09", "C10", "C11", "C12", "C13",
              "C14", "C15", "C16", "C17", "C18", "C19", "C20"]:
     ok(_pid, "whole package re-printed with ast.unparse (layout, comments, line numbers)", _reformat_all)
